@@ -112,6 +112,7 @@ func genInvocation(t *rapid.T, names []string, book, log []Block) Invocation {
 		iv.Date = log[rapid.IntRange(0, len(log)-1).Draw(t, "summary_idx")].Head
 	}
 	iv.Globals = []string{}
+	iv.Long = rapid.IntRange(0, 3).Draw(t, "long_forms") == 3
 	if rapid.Bool().Draw(t, "no_color") {
 		iv.Globals = append(iv.Globals, "--no-color")
 	}
